@@ -11,9 +11,10 @@
 package main
 
 import (
-	"time"
 	"fmt"
+	"os"
 	"strings"
+	"time"
 
 	capnp "capnproto.org/go/capnp/v3"
 	"capnproto.org/go/capnp/v3/internal/verif/vlib"
@@ -30,26 +31,29 @@ type event struct {
 
 // caller ops
 const (
-	opCallR = iota // return immediately, no ack
-	opCallA        // ack, wait gate, return
-	opCallG        // wait gate (no ack), return
-	opCallE        // ack, wait gate, return error
-	opCallP        // alloc results with capability H, ack, wait gate, return
-	opPipe         // pipelined call on this thread's most recent answer, path [0]
-	opRel          // release this thread's client handle
+	opCallR     = iota // return immediately, no ack
+	opCallA            // ack, wait gate, return
+	opCallG            // wait gate (no ack), return
+	opCallE            // ack, wait gate, return error
+	opCallP            // alloc results with capability H, ack, wait gate, return
+	opPipe             // pipelined call on this thread's most recent answer, path [0]
+	opRel              // release this thread's client handle
+	opPipeAsync        // the same pipelined call issued from a helper goroutine
+	opPipeLate         // ... issued by a helper goroutine once the base call's implementation has ended
 	nOps
 )
 
-var opNames = []string{"Call/return", "Call/ack+gate", "Call/gate-noack", "Call/ack+gate+error", "Call/ack+gate+cap", "Pipe[0]", "Release"}
+var opNames = []string{"Call/return", "Call/ack+gate", "Call/gate-noack", "Call/ack+gate+error", "Call/ack+gate+cap", "Pipe[0]", "Release", "go Pipe[0]", "go Pipe[0] after base ended"}
 
 // keeper actions per gated call
 const (
 	kOpen = iota
 	kCancel
 	kLeave
+	kOpenLate // open the gate only once nothing else can run
 )
 
-var kNames = []string{"Open", "Cancel", "Leave"}
+var kNames = []string{"Open", "Cancel", "Leave", "OpenWhenQuiescent"}
 
 type keeperOp struct{ call, act int }
 
@@ -78,24 +82,27 @@ func (p program) String() string {
 func gated(o int) bool { return o == opCallA || o == opCallG || o == opCallE || o == opCallP }
 
 type world struct {
-	ev        []event
-	srv       *server.Server
-	handles   []*capnp.Client
-	released  []bool
-	gate      map[int]bool
-	mode      map[int]int
-	cancels   map[int]context.CancelFunc
-	answers   map[int]*capnp.Answer
-	pipeAns   map[int]*capnp.Answer // keyed by pipe op id
-	pipeBase  map[int]int
-	relAns    []capnp.ReleaseFunc
-	doneThr   int
+	ev          []event
+	srv         *server.Server
+	handles     []*capnp.Client
+	released    []bool
+	gate        map[int]bool
+	mode        map[int]int
+	cancels     map[int]context.CancelFunc
+	answers     map[int]*capnp.Answer
+	pipeAns     map[int]*capnp.Answer // keyed by pipe op id
+	pipeBase    map[int]int
+	relAns      []capnp.ReleaseFunc
+	doneThr     int
+	asyncN      int
+	giveUp      bool
+	asyncDone   int
 	callersDone int
-	running   int
-	maxRun    int
-	hookH     *recHook
-	userShut  int
-	callOrder []int // issue order per thread is static; start order recorded in ev
+	running     int
+	maxRun      int
+	hookH       *recHook
+	userShut    int
+	callOrder   []int // issue order per thread is static; start order recorded in ev
 }
 
 type recHook struct{ w *world }
@@ -238,20 +245,45 @@ func runProgram(p program, w *world, res [][]opResult, fin map[int]string) {
 				case opRel:
 					w.released[ti] = true
 					w.handles[ti].Release()
-				case opPipe:
+				case opPipe, opPipeAsync, opPipeLate:
 					if last < 0 {
 						r.info = "nobase"
 						return
 					}
 					base := w.answers[last]
+					baseID := last
 					id := uint32(opid)
-					ans, rel := base.PipelineSend(context.Background(), []capnp.PipelineOp{{Field: 0}}, capnp.Send{
-						Method: theMethod, ArgsSize: capnp.ObjectSize{DataSize: 8},
-						PlaceArgs: func(s capnp.Struct) error { s.SetUint32(0, id); return nil },
-					})
-					w.pipeAns[opid] = ans
-					w.pipeBase[opid] = last
-					w.relAns = append(w.relAns, rel)
+					do := func() {
+						w.ev = append(w.ev, event{"pipestart", int(id), ""})
+						ans, rel := base.PipelineSend(context.Background(), []capnp.PipelineOp{{Field: 0}}, capnp.Send{
+							Method: theMethod, ArgsSize: capnp.ObjectSize{DataSize: 8},
+							PlaceArgs: func(s capnp.Struct) error { s.SetUint32(0, id); return nil },
+						})
+						w.pipeAns[int(id)] = ans
+						w.pipeBase[int(id)] = baseID
+						w.relAns = append(w.relAns, rel)
+						w.ev = append(w.ev, event{"pipeend", int(id), ""})
+					}
+					if o == opPipeAsync {
+						w.asyncN++
+						vsched.GoNamed(fmt.Sprintf("apipe%d", id), func() { do(); w.asyncDone++ })
+					} else if o == opPipeLate {
+						w.asyncN++
+						vsched.GoNamed(fmt.Sprintf("lpipe%d", id), func() {
+							vsched.WaitUntil("base ended", func() bool {
+								for _, e := range w.ev {
+									if e.kind == "end" && e.call == baseID {
+										return true
+									}
+								}
+								return w.giveUp
+							})
+							do()
+							w.asyncDone++
+						})
+					} else {
+						do()
+					}
 					r.info = "sent"
 				default:
 					ctx, cancel := context.WithCancel(context.Background())
@@ -283,6 +315,9 @@ func runProgram(p program, w *world, res [][]opResult, fin map[int]string) {
 			case kOpen:
 				vsched.Point("open-gate")
 				w.gate[k.call] = true
+			case kOpenLate:
+				vsched.WaitQuiescent()
+				w.gate[k.call] = true
 			case kCancel:
 				// the call's context exists once the caller has issued it; a
 				// helper thread waits for that so the keeper's later gate
@@ -302,6 +337,8 @@ func runProgram(p program, w *world, res [][]opResult, fin map[int]string) {
 	})
 	body(0)
 	vsched.WaitUntil("threads", func() bool { return w.doneThr == nThreads })
+	w.giveUp = true // late helpers stop waiting for a base call that only Shutdown can end
+	vsched.WaitUntil("helpers", func() bool { return w.asyncDone == w.asyncN })
 	// epilogue: drop remaining handles (last one shuts the server down, which
 	// must cancel whatever is still running), then collect every answer.
 	for ti := range p.threads {
@@ -448,6 +485,17 @@ func judge(p program, w *world, res [][]opResult, fin map[int]string, vr *vsched
 		}
 		dpos[id] = i
 	}
+	type pspan struct{ id, base, end int }
+	var pipeSpans []pspan
+	pipeStart := map[int]int{}
+	for i, e := range w.ev {
+		switch e.kind {
+		case "pipestart":
+			pipeStart[e.call] = i
+		case "pipeend":
+			pipeSpans = append(pipeSpans, pspan{e.call, w.pipeBase[e.call], i})
+		}
+	}
 	for ti, th := range p.threads {
 		lastPipeD := -1
 		for pi, o := range th {
@@ -455,7 +503,7 @@ func judge(p program, w *world, res [][]opResult, fin map[int]string, vr *vsched
 			f, has := fin[id]
 			switch {
 			case o == opRel:
-			case o == opPipe:
+			case o == opPipe || o == opPipeAsync || o == opPipeLate:
 				base, ok := w.pipeBase[id]
 				if !ok {
 					continue
@@ -471,10 +519,16 @@ func judge(p program, w *world, res [][]opResult, fin map[int]string, vr *vsched
 					if !delivered || f != "H" {
 						return "pipe-lost", fmt.Sprintf("pipelined call %d on call %d (returned a capability): delivered=%v result=%q", id, base, delivered, f)
 					}
-					if dpos[id] < lastPipeD {
-						return "pipe-order", fmt.Sprintf("pipelined call %d delivered before an earlier pipelined call of the same thread", id)
+					// a pipelined call whose issuing had completed before this one
+					// was issued must have been delivered first
+					for _, ev2 := range pipeSpans {
+						if ev2.base == base && ev2.end < pipeStart[id] {
+							if dp, ok := dpos[ev2.id]; ok && dp > dpos[id] {
+								return "pipe-order", fmt.Sprintf("pipelined call %d overtook pipelined call %d, which had been issued completely before it, on the answer of call %d", id, ev2.id, base)
+							}
+						}
 					}
-					lastPipeD = dpos[id]
+					_ = lastPipeD
 					if e, ok := ended[base]; ok {
 						// delivery happens after the base call ended
 						for i, ev := range w.ev {
@@ -562,7 +616,7 @@ func seqs(maxLen int) [][]int {
 			return
 		}
 		for o := 0; o < nOps; o++ {
-			if o == opPipe {
+			if o == opPipe || o == opPipeAsync || o == opPipeLate {
 				// needs an earlier call in this thread
 				ok := false
 				for _, x := range cur {
@@ -643,6 +697,13 @@ func programs(len0, len1 int, policies [][2]int, fullKeeper bool) []program {
 					base[i] = keeperOp{id, kOpen}
 				}
 				keepers = append(keepers, base)
+				if len(ord) > 0 {
+					late := make([]keeperOp, len(ord))
+					for i, id := range ord {
+						late[i] = keeperOp{id, kOpenLate}
+					}
+					keepers = append(keepers, late)
+				}
 				for i, id := range ord {
 					for _, act := range []int{kCancel, kLeave} {
 						if act == kLeave {
@@ -683,7 +744,7 @@ func programs(len0, len1 int, policies [][2]int, fullKeeper bool) []program {
 					if leave {
 						pipes := 0
 						for _, o := range threads[0] {
-							if o == opPipe {
+							if o == opPipe || o == opPipeAsync || o == opPipeLate {
 								pipes++
 							}
 						}
@@ -734,6 +795,13 @@ func family(name string, progs []program, cfg vsched.Config) vlib.Family {
 				outcomes[outcomeClass(w, fin)] = true
 				return ""
 			})
+			if os.Getenv("VERIF_TRACE") != "" {
+				rr := vsched.Replay(nil, cfg.MaxSteps, body)
+				for i, d := range rr.Decisions {
+					fmt.Fprintf(os.Stderr, "#%d %c n=%d free=%v %s\n", i, d.Kind, d.N, d.Free, d.Desc)
+				}
+				fmt.Fprintf(os.Stderr, "events: %s\n", renderEvents(w))
+			}
 			r.States += int64(len(st.Configs))
 			r.Transitions += st.Steps
 			r.Traces += st.Execs
@@ -770,10 +838,10 @@ func renderEvents(w *world) string {
 
 func main() {
 	vlib.Main(vlib.Spec{
-		ID:    "C12",
-		Level: "model_checking",
+		ID:          "C12",
+		Level:       "model_checking",
 		CaseTimeout: 30 * time.Minute,
-		Rule:  "programs = caller thread T0 (1-3 ops over {5 call behaviours, pipelined call on the latest answer, Release}), optional second caller T1 with its own client handle, a gatekeeper thread (gate order permutations; each gate opened, its call context cancelled, or left closed so that only Shutdown's cancellation can end the call), policies MaxConcurrentCalls x AnswerQueueSize; fixed epilogue (release remaining handles => server Shutdown, collect every answer). For each program all schedules of the real server/, answer.go, capability.go up to the preemption bound. Non-trivial = more than one schedule or outcome. states = sum over programs of distinct scheduling configurations; transitions = scheduling steps; traces = executions on the implementation.",
+		Rule:        "programs = caller thread T0 (1-3 ops over {5 call behaviours, pipelined call on the latest answer, Release}), optional second caller T1 with its own client handle, a gatekeeper thread (gate order permutations; each gate opened, its call context cancelled, or left closed so that only Shutdown's cancellation can end the call), policies MaxConcurrentCalls x AnswerQueueSize; fixed epilogue (release remaining handles => server Shutdown, collect every answer). For each program all schedules of the real server/, answer.go, capability.go up to the preemption bound. Non-trivial = more than one schedule or outcome. states = sum over programs of distinct scheduling configurations; transitions = scheduling steps; traces = executions on the implementation.",
 		Assumptions: []string{
 			"scheduling points at every sync operation are sufficient (data-race freedom checked separately by a free-running -race pass, which decides nothing)",
 			"the server is driven through capnp.Client, so Shutdown runs only after the last handle is released and no Send is in progress, as the Client contract guarantees",
